@@ -688,22 +688,7 @@ impl Run {
 }
 
 pub fn run(p: &Program, input: &str, scoping: Scoping, lim: Limits) -> Run {
-    let mut m = Machine {
-        scopes: vec![Scope::default()],
-        bases: vec![0],
-        last: None,
-        scoping,
-        lim,
-        steps: 0,
-        out: String::new(),
-        io: vec![],
-        input: input.split_inclusive('\n'),
-        trace: Trace::default(),
-        call_depth: 0,
-        block_depth: 0,
-        loop_depth_in_fn: vec![0],
-        if_depth_in_loop: vec![0],
-    };
+    let mut m = Machine::new(input, scoping, lim);
     let mut result = Ok(());
     'outer: for b in &p.blocks {
         match m.block(b) {
@@ -720,6 +705,48 @@ pub fn run(p: &Program, input: &str, scoping: Scoping, lim: Limits) -> Run {
         m.trace.error_stmt_index = Some(m.trace.stmts);
     }
     Run { out: m.out, result, steps: m.steps, io: m.io, trace: m.trace }
+}
+
+impl<'i> Machine<'i> {
+    pub fn new(input: &'i str, scoping: Scoping, lim: Limits) -> Self {
+        Machine {
+            scopes: vec![Scope::default()],
+            bases: vec![0],
+            last: None,
+            scoping,
+            lim,
+            steps: 0,
+            out: String::new(),
+            io: vec![],
+            input: input.split_inclusive('\n'),
+            trace: Trace::default(),
+            call_depth: 0,
+            block_depth: 0,
+            loop_depth_in_fn: vec![0],
+            if_depth_in_loop: vec![0],
+        }
+    }
+
+    /// execute one top-level statement (used by generators that interpret while they generate);
+    /// Ok(true) = carry on, Ok(false) = the program ended (top-level break/continue/return)
+    pub fn exec_top(&mut self, s: &Stmt) -> Result<bool, Stop> {
+        match self.stmt(s)? {
+            Flow::Normal => Ok(true),
+            _ => Ok(false),
+        }
+    }
+
+    /// current value of a global variable
+    pub fn peek(&self, n: &Name) -> Option<&V> {
+        match self.scopes[0].map.get(&n.key()) {
+            Some(Entry::Var(v)) => Some(v),
+            _ => None,
+        }
+    }
+
+    pub fn pronoun_referent(&self) -> Option<&Name> {
+        self.last.as_ref()
+    }
 }
 
 impl<'i> Machine<'i> {
